@@ -106,7 +106,10 @@ impl<const K: usize> Polynomial<K> {
             }
         }
 
-        let p = matrix.try_inverse().unwrap() * rhs;
+        // Solved by LU decomposition with partial pivoting: `try_inverse` uses closed-form cofactor
+        // formulas for matrices up to 4 x 4, which lose all accuracy on the ill-conditioned Hankel
+        // matrices of abscissae in a narrow range away from zero
+        let p = matrix.lu().solve(&rhs).unwrap();
         let mut c = [0.0; K];
         for i in 0..K {
             c[i] = p[(i, 0)];
